@@ -220,3 +220,169 @@ def sweep_c05(tier, seed):
         first.setdefault(v["name"], v)
     return {"status": "violation" if viol else "ok", "cases": cases, "distinct": cases, "violations": list(first.values()),
             "samples": [{"kernel_seed": seed * 7919}, {"race": "6e6 points, 2x2 bins, 16 threads"}], "kind": "bounded-native"}
+
+
+# --------------------------------------------------------------------------------------
+# C18: orientation basis
+# --------------------------------------------------------------------------------------
+def basis_errors(np, b, want_n=None, right_handed=False, tol=1e-9):
+    def c(v):
+        return np.array([float(v.x.values), float(v.y.values), float(v.z.values)])
+
+    n, u, v = c(b.n), c(b.u), c(b.v)
+    bad = []
+    for name, w in (("n", n), ("u", u), ("v", v)):
+        if not np.isfinite(w).all() or abs(np.dot(w, w) - 1) > tol:
+            bad.append("|%s|^2 = %r" % (name, float(np.dot(w, w))))
+    for (a, x), (bb, y) in (((("n", n)), ("u", u)), (("n", n), ("v", v)), (("u", u), ("v", v))):
+        if abs(np.dot(x, y)) > tol:
+            bad.append("%s.%s = %r" % (a, bb, float(np.dot(x, y))))
+    if want_n is not None:
+        w = np.array(want_n, dtype=float)
+        w = w / np.linalg.norm(w) if np.linalg.norm(w) > 0 and np.isfinite(np.linalg.norm(w)) else w / np.abs(w).max() / np.linalg.norm(w / np.abs(w).max())
+        if np.linalg.norm(np.cross(n, w)) > 1e-7 or np.dot(n, w) <= 0:
+            bad.append("n %s not parallel to request %s" % (n, w))
+    if right_handed and np.linalg.norm(np.cross(u, v) - n) > 1e-7:
+        bad.append("u x v != n")
+    return bad
+
+
+def replay_basis(case, model, rec):
+    import numpy as np
+    import osyris
+    from osyris import Vector, VectorBasis
+    from osyris.plot.direction import get_direction
+
+    vals = [model.get("n" + c) for c in "xyz"]
+    cands = []
+    if all(isinstance(v, (int, float)) for v in vals) and any(vals):
+        cands.append(vals)
+    cands += [[1, 0, 0], [0, 1, 0], [0, 0, 1], [1, 1, 0], [1, 2, 3], [-1, 0.5, 2], [0, 0, -2], [3, -4, 0], [1e-3, 2, -7]]
+    for v in cands:
+        b = VectorBasis(n=Vector(*v, unit="m"))
+        bad = basis_errors(np, b, want_n=v, right_handed=True)
+        if bad:
+            return {"reproduced": True, "input": {"normal": v}, "observed": bad}
+    for d in ["x", "y", "z", "X", "xyz", "zyx", "YXZ", "zYx", "yzx", "xzy"]:
+        b = get_direction(d)
+        ax = {"x": [1, 0, 0], "y": [0, 1, 0], "z": [0, 0, 1]}
+        bad = basis_errors(np, b, want_n=ax[d.lower()[0]], right_handed=len(d) == 1)
+        if len(d) == 3:
+            for nm, k in (("u", 1), ("v", 2)):
+                w = getattr(b, nm)
+                got = [float(w.x.values), float(w.y.values), float(w.z.values)]
+                if got != [float(t) for t in ax[d.lower()[k]]]:
+                    bad.append("%s of %r is %s" % (nm, d, got))
+        if bad:
+            return {"reproduced": True, "input": {"direction": d}, "observed": bad}
+    return {"reproduced": False}
+
+
+def replay_normalize(case, model, rec):
+    import numpy as np
+    from osyris import Vector
+    from osyris.core.vector import normalize
+
+    units = ["cm/m", "percent"] if "scaled" in (case or "") else ["m", "dimensionless", "km"]
+    for u in units:
+        r = normalize(Vector(3.0, 4.0, 12.0, unit=u))
+        n2 = float(r.x.values) ** 2 + float(r.y.values) ** 2 + float(r.z.values) ** 2
+        if abs(n2 - 1) > 1e-9:
+            return {"reproduced": True, "input": {"vector": [3.0, 4.0, 12.0], "unit": u},
+                    "observed": "normalised components %s, |.|^2 = %r" % ([float(r.x.values), float(r.y.values), float(r.z.values)], n2)}
+    return {"reproduced": False}
+
+
+def top_side_case(seed):
+    import numpy as np
+    import osyris
+    from osyris import Array, Vector
+    from osyris.plot.direction import get_direction
+
+    rng = np.random.default_rng(seed)
+    n = int(rng.integers(20, 200))
+    axis = rng.normal(size=3)
+    axis /= np.linalg.norm(axis)
+    pos = rng.normal(size=(n, 3)) * 2.0
+    vel = np.cross(axis, pos) + rng.normal(size=(n, 3)) * 0.05
+    mass = rng.uniform(0.5, 2.0, n)
+    o = rng.normal(size=3) * 0.1
+    data = {"position": Vector(*[Array(values=pos[:, k].copy(), unit="m") for k in range(3)]),
+            "velocity": Vector(*[Array(values=vel[:, k].copy(), unit="m/s") for k in range(3)]),
+            "mass": Array(values=mass.copy(), unit="kg")}
+    origin = Vector(*[Array(values=o[k], unit="m") for k in range(3)])
+    dx = 6.0 * osyris.units("m")
+    R = 0.25 * (6.0 + 6.0)
+    r = pos - o
+    sel = np.linalg.norm(r, axis=1) < R
+    if not sel.any():
+        return None
+    L = (mass[sel, None] * np.cross(r[sel], vel[sel])).sum(axis=0)
+    import contextlib
+    import io
+
+    with contextlib.redirect_stdout(io.StringIO()):
+        top = get_direction("top", data=data, dx=dx, dy=dx, origin=origin)
+        side = get_direction("SIDE", data=data, dx=dx, dy=dx, origin=origin)
+    bad = basis_errors(np, top, want_n=L, right_handed=True)
+    bad += ["side: " + b for b in basis_errors(np, side)]
+    sn = np.array([float(side.n.x.values), float(side.n.y.values), float(side.n.z.values)])
+    if abs(np.dot(sn, L / np.linalg.norm(L))) > 1e-7:
+        bad.append("side: angular momentum not in the image plane")
+    return bad or None
+
+
+def replay_top_side(case, model, rec):
+    for s in range(40):
+        bad = top_side_case(77 + s)
+        if bad:
+            return {"reproduced": True, "input": {"seed": 77 + s}, "observed": bad}
+    return {"reproduced": False}
+
+
+def sweep_c18(tier, seed):
+    import numpy as np
+    from osyris import Vector, VectorBasis
+
+    rng = np.random.default_rng(seed)
+    viol, cases = [], 0
+    r = replay_basis("", {}, {})
+    cases += 20
+    if r["reproduced"]:
+        viol.append({"name": "C18.native.basis", "input": r["input"], "observed": r["observed"]})
+    nr = 300 if tier == "quick" else 5000
+    for k in range(nr):
+        cases += 1
+        v = rng.normal(size=3)
+        if k % 7 == 0:
+            v[2] = 0.0
+        if k % 11 == 0:
+            v[int(rng.integers(0, 3))] = 0.0
+        if not v.any():
+            continue
+        b = VectorBasis(n=Vector(*v.tolist(), unit=["m", "cm", "km", "dimensionless"][k % 4]))
+        bad = basis_errors(np, b, want_n=v, right_handed=True)
+        if bad:
+            viol.append({"name": "C18.native.basis", "input": {"normal": v.tolist()}, "observed": bad})
+            break
+    # magnitudes: tiny / huge components (overflow and underflow of intermediates)
+    for ex in (1e-300, 1e-200, 1e-160, 1e-100, 1e-30, 1e30, 1e100, 1e160, 1e200):
+        for v in ([1.0, 0.0, ex], [ex, 1.0, 1.0], [1.0, ex, 0.0], [ex, ex, ex], [1.0, 1.0, ex]):
+            cases += 1
+            with np.errstate(all="ignore"):
+                b = VectorBasis(n=Vector(*v, unit="m"))
+                bad = basis_errors(np, b, want_n=v, right_handed=True)
+            if bad:
+                viol.append({"name": "C18.native.magnitude", "input": {"normal": v}, "observed": bad[:3]})
+                break
+    for s in range(10 if tier == "quick" else 200):
+        cases += 1
+        bad = top_side_case(seed * 31 + s)
+        if bad:
+            viol.append({"name": "C18.native.top_side", "input": {"seed": seed * 31 + s}, "observed": bad})
+            break
+    first = {}
+    for v in viol:
+        first.setdefault(v["name"], v)
+    return {"status": "violation" if viol else "ok", "cases": cases, "distinct": cases, "violations": list(first.values()),
+            "samples": [{"normal": [1.0, 0.0, 1e-200]}, {"direction": "zYx"}], "kind": "bounded-native"}
